@@ -278,15 +278,28 @@ func runC11(r *engine.Run) {
 			if err != nil || !bytes.Equal(id.raw(v3), b) {
 				c.Fail("repr/"+id.name+"/binary-decode", fmt.Sprintf("%x -> %x (err %v), want %x", rev, id.raw(v3), err, b), nil)
 			}
+			// a representation survives being read: the same buffer decodes to the same value again
+			if v3b, err := id.unbin(rev); err != nil || !bytes.Equal(id.raw(v3b), b) {
+				c.Fail("repr/"+id.name+"/binary-decode-twice", fmt.Sprintf("the binary form of %x decoded a second time from the same buffer (now %x) gives %x (err %v)", b, rev, id.raw(v3b), err), nil)
+			}
+			tb := []byte(string(t))
+			id.untext(tb)
+			if v2b, err := id.untext(tb); err != nil || !bytes.Equal(id.raw(v2b), b) {
+				c.Fail("repr/"+id.name+"/text-decode-twice", fmt.Sprintf("the text form of %x decoded a second time from the same buffer (now %q) gives %x (err %v)", b, tb, id.raw(v2b), err), nil)
+			}
 			// database
 			dv, err := id.value(v)
 			db, ok := dv.([]byte)
 			if err != nil || !ok || !bytes.Equal(db, b) {
 				c.Fail("repr/"+id.name+"/value", fmt.Sprintf("%x -> %v (err %v)", b, dv, err), nil)
 			}
-			v4, err := id.scan(append([]byte(nil), b...))
+			src := append([]byte(nil), b...)
+			v4, err := id.scan(src)
 			if err != nil || !bytes.Equal(id.raw(v4), b) {
 				c.Fail("repr/"+id.name+"/scan", fmt.Sprintf("%x -> %x (err %v)", b, id.raw(v4), err), nil)
+			}
+			if v4b, err := id.scan(src); err != nil || !bytes.Equal(id.raw(v4b), b) {
+				c.Fail("repr/"+id.name+"/scan-twice", fmt.Sprintf("%x scanned a second time from the same buffer (now %x) gives %x (err %v)", b, src, id.raw(v4b), err), nil)
 			}
 			if c.WantSample() {
 				c.Sample(func() interface{} {
